@@ -108,7 +108,7 @@ def c_case(c, ctx):
 
     ctx.expect(type(r) is type(shape), "result_class", "%s -> %s" % (type(shape).__name__, type(r).__name__))
     scale = 1.0 + float(np.abs(on_array).max()) if on_array.size else 1.0
-    ctx.expect(close(r.points, on_array, atol=1e-12 * scale), "points_vs_bare_array", lambda: describe(r.points, on_array))
+    ctx.expect(close(r.points, on_array, rtol=0, atol=1e-12 * scale), "points_vs_bare_array", lambda: describe(r.points, on_array))
     want = ref_eval(tc, t, bare)
     if want is not None:
         ctx.expect(close(r.points, want, atol=1e-9 * scale), "points_vs_reference", lambda: describe(r.points, want))
@@ -125,7 +125,7 @@ def c_case(c, ctx):
         g, rg = shape.landmarks[nm], r.landmarks[nm]
         ctx.expect(type(g) is type(rg), "landmark_class", "%s -> %s" % (type(g).__name__, type(rg).__name__))
         wl = t.apply(g.points.copy())
-        ctx.expect(close(rg.points, wl, atol=1e-12 * scale), "landmarks_vs_bare_array", lambda: "group %r\n%s" % (nm, describe(rg.points, wl)))
+        ctx.expect(close(rg.points, wl, rtol=0, atol=1e-12 * scale), "landmarks_vs_bare_array", lambda: "group %r\n%s" % (nm, describe(rg.points, wl)))
         wr = ref_eval(tc, t, g.points)
         if wr is not None:
             ctx.expect(close(rg.points, wr, atol=1e-9 * scale), "landmarks_vs_reference", lambda: "group %r\n%s" % (nm, describe(rg.points, wr)))
